@@ -87,7 +87,9 @@ func c06Exprs(thorough bool) []string {
 	}
 	// each call in contexts: projection RHS, filter condition, after a pipe, multi-select member,
 	// expression-reference body, left of a failing call (error path)
-	ctxs := []string{"%s", "@|%s", "[%s]", "{x:%s}", "[*].%s", "*.%s", "[?%s]", "a[*].%s", "map(&%s,@)", "map(&%s,a)", "[%s,abs(`\"x\"`)]", "%s|nosuch(@)", "[][%s]", "sort_by(@,&%s)"}
+	ctxs := []string{"%s", "@|%s", "[%s]", "{x:%s}", "[*].%s", "*.%s", "[?%s]", "a[*].%s", "map(&%s,@)", "map(&%s,a)", "[%s,abs(`\"x\"`)]", "%s|nosuch(@)", "[][%s]", "sort_by(@,&%s)",
+		// the call as the left-hand side of projections, filters, indices (its result may alias the document)
+		"%s[?@]", "%s[?@>`1`]", "%s[?k>`1`].k", "%s[?!a]", "%s[*]", "%s[]", "%s[1:]", "%s[0]", "%s.a", "%s|[?@>`1`]", "%s[?@>`1`].abs(@)"}
 	for _, c := range calls {
 		for _, ctx := range ctxs {
 			add(strings.Replace(ctx, "%s", c, -1))
@@ -227,7 +229,7 @@ func shortDoc(d interface{}) interface{} {
 }
 
 func finishC06(r *harness.Run, k map[string]int64, notes map[string]interface{}) harness.Coverage {
-	r.Rule = "every built-in with every argument shape (fields, indices, array literals, expression references) up to the weight bound, each call bare and in 14 contexts (projection right-hand side, filter condition, after a pipe, multi-select member, expression-reference body, next to a failing call so that the error path is taken), plus the core and projection universes, x documents whose arrays are unsorted with >=3 elements, duplicates, nesting and two hidden elements of spare capacity. plus three documents with arrays of 64-130 elements. Oracle: a deep snapshot of the document (order-sensitive, up to capacity) is compared before the call, at EVERY statement of the instrumented library during the call, and after it; the documents live as long as the worker and ALL of them are re-verified after every expression, so a write that reaches a document after its own call has returned is seen as well. Non-trivial = every (expression, document) pair (each call is monitored on all its statements); distinct by (expression, document)"
+	r.Rule = "every built-in with every argument shape (fields, indices, array literals, expression references) up to the weight bound, each call bare and in 25 contexts (projection right-hand side, filter condition, after a pipe, multi-select member, expression-reference body, next to a failing call so that the error path is taken), plus the core and projection universes, x documents whose arrays are unsorted with >=3 elements, duplicates, nesting and two hidden elements of spare capacity. plus three documents with arrays of 64-130 elements. Oracle: a deep snapshot of the document (order-sensitive, up to capacity) is compared before the call, at EVERY statement of the instrumented library during the call, and after it; the documents live as long as the worker and ALL of them are re-verified after every expression, so a write that reaches a document after its own call has returned is seen as well. Non-trivial = every (expression, document) pair (each call is monitored on all its statements); distinct by (expression, document)"
 	r.Assumptions = []string{"statement granularity: a write that is undone inside one statement is invisible", "documents are generic JSON values; typed documents are C18's"}
 	r.Evaluations = k["searches"]
 	r.Traces = k["searches"]
